@@ -178,6 +178,8 @@ def can_hold(eng, val, dst):
         return z3.BoolVal(True)
     if src == OBJ:
         b = getattr(val, "boxed", None)
+        if dst.kind == "u":
+            raise Unsupported("python ints out of an object array into an unsigned column (pandas refuses some of them)")
         return z3.BoolVal(True) if b is not None and np.dtype(b) == dst else None
     if dst.kind in "iu":
         lo, hi = _int_range(dst)
